@@ -7,6 +7,7 @@ import KrillModel.Drivers.Pubd
 import KrillModel.Drivers.AggStore
 import KrillModel.Drivers.Pure
 import KrillModel.Drivers.SysObjects
+import KrillModel.Drivers.RoaObj
 import KrillModel.Drivers.SysKeys
 import KrillModel.Drivers.SysStatus
 import KrillModel.Drivers.Proto
@@ -24,6 +25,7 @@ def main (args : List String) : IO UInt32 := do
   | ["aggstore", prop] => KM.Drv.AggStore.main prop; return 0
   | ["pure"] => KM.Drv.Pure.main; return 0
   | "sysobjects" :: rest => KM.Drv.SysObjects.main rest; return 0
+  | ["roaobj"] => KM.Drv.RoaObj.main; return 0
   | ["syskeys"] => KM.Drv.SysKeys.main; return 0
   | ["syskeys", prop] => KM.Drv.SysKeys.main prop; return 0
   | ["sysstatus"] => KM.Drv.SysStatus.main; return 0
